@@ -20,10 +20,12 @@ theorem vocabulary_matches : Ecal.Gen.C16.commands = vocabulary := by decide
     command is in progress (the debugger's lock is free). -/
 def Inv (s : DbgState) : Prop := Inv0 s ∧ s.lock = 0
 
-/-- a reply that is a result or an error — not a panic, not a self-deadlock -/
+/-- a reply that is a JSON-encodable result or an error — not a result json.Marshal rejects,
+    not a panic, not a self-deadlock -/
 def Answers : Reply → Prop
   | .ok _ => True
   | .error => True
+  | .notJson => False
   | .panic _ => False
   | .deadlock => False
 
@@ -32,11 +34,11 @@ theorem inv_init (gs : Bool) (globals : List Str) : Inv (init gs globals) := by
   refine ⟨⟨?_, ?_⟩, rfl⟩ <;> intro p hp <;> simp [init] at hp
 
 theorem handle_ok (env : Env) (s : DbgState) (line : Str) (h : Inv s) :
-    ∃ o s', handleInput repaired env line s = .ok o s' ∧ Inv s' := by
+    ∃ o s', handleInput repaired env line s = .ok o s' ∧ Inv s' ∧ o.1 ≠ .unencodable := by
   have hw := handleInput_safe env line h.1 h.2
   unfold wp at hw
   cases hr : handleInput repaired env line s with
-  | ok o s' => rw [hr] at hw; exact ⟨o, s', rfl, hw⟩
+  | ok o s' => rw [hr] at hw; exact ⟨o, s', rfl, hw.1, hw.2⟩
   | panic p s' => rw [hr] at hw; exact hw.elim
   | deadlock s' => rw [hr] at hw; exact hw.elim
 
@@ -45,14 +47,16 @@ theorem handle_ok (env : Env) (s : DbgState) (line : Str) (h : Inv s) :
     slice or nil-dereference primitive of the handler fails and the lock is not taken twice. -/
 theorem handle_never_panics (env : Env) (s : DbgState) (line : Str) (h : Inv s) :
     Answers (handle env s line).2 := by
-  obtain ⟨o, s', hr, _⟩ := handle_ok env s line h
+  obtain ⟨o, s', hr, _, ho⟩ := handle_ok env s line h
   simp only [handle, handleG, hr, Out.reply]
-  split <;> trivial
+  by_cases h2 : o.2 = true
+  · simp [h2, Answers]
+  · simp [h2, ho, Answers]
 
 /-- Every command preserves the invariant. -/
 theorem handle_preserves_inv (env : Env) (s : DbgState) (line : Str) (h : Inv s) :
     Inv (handle env s line).1 := by
-  obtain ⟨o, s', hr, hi⟩ := handle_ok env s line h
+  obtain ⟨o, s', hr, hi, _⟩ := handle_ok env s line h
   simpa only [handle, handleG, hr] using hi
 
 /-- **Lock released.** After every command — on every path, error returns included — the
@@ -64,14 +68,14 @@ theorem lock_released (env : Env) (s : DbgState) (line : Str) (h : Inv s) :
 def suspendedAtTop : DbgState :=
   { stacks := [(1, [])],
     istates := [(1, { running := false, cmd := .stop, hasNode := true, hasVs := true, hasErr := false,
-                      stepOutStack := none, atGlobal := true, locals := [] })],
+                      errDataJson := true, stepOutStack := none, atGlobal := true, locals := [] })],
     breakPoints := [], sources := [], breakOnStart := false, ownersSet := true, mutexLogSet := true,
     threadPoolSet := true, globalScope := true, globals := [], lock := 0 }
 
 /-- Even the code before a44f74f releases the lock when it panics (the unlock is deferred):
     for both guard settings the lock count after a command equals the one before. -/
 theorem lock_released_even_unrepaired :
-    (handleG { lockstateNil := false, stepOutLen := false } ⟨fun _ => true, fun _ _ => true⟩
+    (handleG { lockstateNil := false, stepOutLen := false, errDataConv := false } ⟨fun _ => true, fun _ _ => true⟩
       suspendedAtTop
       [99, 111, 110, 116, 32, 49, 32, 115, 116, 101, 112, 111, 117, 116]).1.lock = 0 := by decide
 
@@ -120,7 +124,7 @@ theorem event_preserves_inv (s s' : DbgState) (e : Event) (h : Inv s) (he : appl
       | free =>
         cases he
         exact ⟨⟨hst, fun p hp => hs p (mem_del hp)⟩, hl⟩
-      | running cmd =>
+      | running cmd hasErr errDataJson =>
         simp only at he
         split at he
         · rename_i is hlk
@@ -132,7 +136,7 @@ theorem event_preserves_inv (s s' : DbgState) (e : Event) (h : Inv s) (he : appl
           · exact ⟨hg.1, hg.2⟩
           · exact hs p hp
         · cases he
-      | suspended hasErr atGlobal locals =>
+      | suspended hasErr errDataJson atGlobal locals =>
         cases he
         refine ⟨⟨hst, ?_⟩, hl⟩
         intro p hp
@@ -150,10 +154,10 @@ theorem still_answers (env env' : Env) (s : DbgState) (line : Str) (h : Inv s) :
   have hc : lookupCmd [115, 116, 97, 116, 117, 115] = some .status := by decide
   have hw := statusOf_safe hi.1 hi.2
   unfold wp at hw
-  have hrun : handleInput repaired env' [115, 116, 97, 116, 117, 115] t = statusOf t := by
+  have hrun : handleInput repaired env' [115, 116, 97, 116, 117, 115] t = statusOf repaired t := by
     simp [handleInput, hf, hc, idx, Cmd.run, bind, pure]
   simp only [handle, handleG, hrun]
-  cases hr : statusOf t with
+  cases hr : statusOf repaired t with
   | ok o t' => rw [hr] at hw; simp [hw.2, Out.reply]
   | panic p t' => rw [hr] at hw; exact hw.elim
   | deadlock t' => rw [hr] at hw; exact hw.elim
@@ -180,7 +184,7 @@ theorem command_interface_total {s : DbgState} (hr : Reachable s) (env env' : En
    still_answers env env' s line (reachable_inv hr)⟩
 
 example : Reachable suspendedAtTop :=
-  .event (.advance 1 0 (.suspended false true [])) (.event .setRefs (.event (.start 1) (.init true []) rfl) rfl) rfl
+  .event (.advance 1 0 (.suspended false true true [])) (.event .setRefs (.event (.start 1) (.init true []) rfl) rfl) rfl
 
 def anyEnv : Env := ⟨fun _ => true, fun _ _ => true⟩
 
@@ -192,16 +196,39 @@ example : (handle anyEnv suspendedAtTop
 /-- **The `lockstate` guard is necessary**: without the nil checks added by a44f74f,
     `lockstate` before any evaluation dereferences the unset mutex log. -/
 theorem unrepaired_lockstate_panics :
-    (handleG { lockstateNil := false, stepOutLen := true } anyEnv (init true [])
+    (handleG { lockstateNil := false, stepOutLen := true, errDataConv := true } anyEnv (init true [])
       [108, 111, 99, 107, 115, 116, 97, 116, 101]).2 = .panic "LockState: ed.mutexLog.StringSlice()" := by
   decide
 
 /-- **The step-out guard is necessary**: without `len(stack) > 0`, `cont 1 stepout` for a
     thread suspended at call depth 0 slices `stack[:-1]`. -/
 theorem unrepaired_stepout_panics :
-    (handleG { lockstateNil := true, stepOutLen := false } anyEnv suspendedAtTop
+    (handleG { lockstateNil := true, stepOutLen := false, errDataConv := true } anyEnv suspendedAtTop
       [99, 111, 110, 116, 32, 49, 32, 115, 116, 101, 112, 111, 117, 116]).2
       = .panic "Continue: stack[:len(stack)-1]" := by
+  decide
+
+/-- a thread suspended by break-on-error whose error carries an ECAL map (or a non-finite
+    number) as data — reachable -/
+def suspendedOnMapError : DbgState :=
+  { suspendedAtTop with
+    istates := [(1, { running := false, cmd := .stop, hasNode := true, hasVs := true, hasErr := true,
+                      errDataJson := false, stepOutStack := none, atGlobal := true, locals := [] })] }
+
+example : Reachable suspendedOnMapError :=
+  .event (.advance 1 0 (.suspended true false true [])) (.event .setRefs (.event (.start 1) (.init true []) rfl) rfl) rfl
+
+example : (handle anyEnv suspendedOnMapError [115, 116, 97, 116, 117, 115]).2 = .ok .status := by decide
+example : (handle anyEnv suspendedOnMapError [100, 101, 115, 99, 114, 105, 98, 101, 32, 49]).2 = .ok .describe := by decide
+
+/-- **The conversion of the error data is necessary**: with `RuntimeErrorWithDetail.ToJSONObject`
+    passing `Data` through unconverted, `status` and `describe 1` return an object json.Marshal
+    rejects while a thread is suspended on an error carrying an ECAL map. -/
+theorem unrepaired_errdata_not_json :
+    (handleG { lockstateNil := true, stepOutLen := true, errDataConv := false } anyEnv suspendedOnMapError
+      [115, 116, 97, 116, 117, 115]).2 = .notJson ∧
+    (handleG { lockstateNil := true, stepOutLen := true, errDataConv := false } anyEnv suspendedOnMapError
+      [100, 101, 115, 99, 114, 105, 98, 101, 32, 49]).2 = .notJson := by
   decide
 
 end Ecal.Props.C16
